@@ -4,6 +4,7 @@ import (
 	"context"
 	"fmt"
 	"sync"
+	"time"
 
 	"github.com/koron-go/z80"
 	"github.com/koron-go/z80/verif/mon"
@@ -431,6 +432,186 @@ func runC08(c *Ctx) {
 				"run_calls": lcalls, "breakpoint_stops": lbp, "halt_stops": lhalt, "steps": lsteps, "base": h16(p.Base), "halt_addr": h16(p.HaltAddr)})
 		}
 	})
+	// ---- bundled memory types handed to the CPU directly (no monitor in between), requests
+	// pending from the start, raised by port callbacks and injected between Run calls, and a
+	// port callback that bank-switches by assigning another memory to CPU.Memory
+	ndirect := c.Pick(2000, 60000)
+	var directCalls, directSwaps int64
+	Parallel(ndirect, func(di int) {
+		defer func() {
+			if pn := recover(); pn != nil {
+				c.R.Violation("C08/direct/panic", map[string]interface{}{"config": di, "panic": fmt.Sprint(pn)})
+			}
+		}()
+		r := mon.NewRng(mon.Hash(uint64(c.Seed), uint64(di), 0xC08D))
+		o := GenOpts{Base: 0x0100, MinBlocks: 1, MaxBlocks: 14, IM: r.Intn(3)}
+		p := GenProgram(r, o)
+		img := &mon.Mem{}
+		img.Fill(r.U64())
+		p.Install(img)
+		useMap := di%2 == 1
+		mk := func() z80.Memory {
+			if useMap {
+				m := make(z80.MapMemory, 65536)
+				for a := 0; a < 65536; a++ {
+					m[uint16(a)] = img.Data[a]
+				}
+				return m
+			}
+			d := make(z80.DumbMemory, 65536)
+			copy(d, img.Data[:])
+			return d
+		}
+		memR, memT := mk(), mk()
+		// the other bank: same code, different data area
+		var altR, altT z80.Memory
+		swapAt := uint64(0)
+		if p.HasIO && r.Intn(3) == 0 {
+			altR, altT = mk(), mk()
+			for a := 0; a < 0x100; a++ {
+				v := r.U8()
+				altR.Set(genData+uint16(a), v)
+				altT.Set(genData+uint16(a), v)
+			}
+			swapAt = uint64(1 + r.Intn(4))
+		}
+		ioSeed := r.U64()
+		ioR, ioT := &mon.IO{Seed: ioSeed}, &mon.IO{Seed: ioSeed}
+		run := &z80.CPU{States: p.Init, Memory: memR, IO: ioR}
+		twin := &z80.CPU{States: p.Init, Memory: memT, IO: ioT}
+		mkReq := func() *z80.Interrupt {
+			switch r.Intn(4) {
+			case 0:
+				return z80.NMIInterrupt()
+			}
+			switch o.IM {
+			case 0:
+				if r.Bool() {
+					return z80.IM0Interrupt(uint8(0xcf | r.Intn(7)<<3))
+				}
+				h := p.HandlerAddr()
+				return z80.IM0Interrupt(0xcd, uint8(h), uint8(h>>8))
+			case 1:
+				return z80.IM1Interrupt()
+			}
+			return z80.IM2Interrupt(uint8(r.Intn(128) * 2))
+		}
+		if r.Bool() {
+			q := mkReq()
+			run.Interrupt, twin.Interrupt = copyIntr(q), copyIntr(q)
+		}
+		ioReqAt := uint64(0)
+		var ioReq *z80.Interrupt
+		if p.HasIO && r.Bool() {
+			ioReqAt = uint64(1 + r.Intn(5))
+			ioReq = mkReq()
+		}
+		hook := func(cpu *z80.CPU, alt z80.Memory) func(*mon.IO, mon.Access) {
+			return func(o *mon.IO, a mon.Access) {
+				if ioReqAt != 0 && o.N == ioReqAt {
+					cpu.Interrupt = copyIntr(ioReq)
+				}
+				if swapAt != 0 && o.N == swapAt && alt != nil {
+					cpu.Memory = alt
+				}
+			}
+		}
+		ioR.Hook = hook(run, altR)
+		ioT.Hook = hook(twin, altT)
+		var bps map[uint16]struct{}
+		switch r.Intn(4) {
+		case 0:
+			bps = map[uint16]struct{}{p.HaltAddr: {}}
+		case 1:
+			bps = map[uint16]struct{}{p.HandlerAddr(): {}, 0x0066: {}, 0x0038: {}}
+		}
+		run.BreakPoints, twin.BreakPoints = bps, bps
+		bad := ""
+		calls := 0
+		for call := 0; call < 40 && bad == ""; call++ {
+			// twin under the stop rule (flag-independent notion of HALT is not available
+			// without a bus log: the flag is used here, C08's monitored phase checks it)
+			twin.HALT = false
+			var tErr error
+			tDone := false
+			for st := 0; st < 300000; st++ {
+				twin.Step()
+				if twin.BreakPoints != nil {
+					if _, hit := twin.BreakPoints[twin.PC]; hit {
+						tErr, tDone = z80.ErrBreakPoint, true
+						break
+					}
+				}
+				if twin.HALT {
+					tDone = true
+					break
+				}
+			}
+			if !tDone {
+				return // does not stop (derailed by the mode-0 known finding): no verdict
+			}
+			ctx, cancel := context.WithTimeout(context.Background(), 60*time.Second)
+			rErr := run.Run(ctx)
+			cancel()
+			calls++
+			if rErr == context.DeadlineExceeded {
+				c.R.Inconclusive(fmt.Sprintf("C08 direct-memory config %d: Run still going after 60 s where the Step-driven twin stops at once", di))
+				return
+			}
+			switch {
+			case rErr != tErr:
+				bad = fmt.Sprintf("Run returned %v, stop rule on repeated Step gives %v", rErr, tErr)
+			case run.States != twin.States || run.HALT != twin.HALT:
+				bad = "final state differs from repeated Step"
+			case (run.Interrupt == nil) != (twin.Interrupt == nil):
+				bad = "pending request differs from repeated Step"
+			case !mon.EqualSeq(ioR.Log, ioT.Log):
+				bad = "port log differs from repeated Step"
+			}
+			if bad == "" && rErr == nil && twin.Interrupt == nil {
+				if call > 0 {
+					break
+				}
+				// once more on the halted CPU, now with a request injected between the calls
+				if r.Bool() {
+					q := mkReq()
+					run.Interrupt, twin.Interrupt = copyIntr(q), copyIntr(q)
+				}
+			}
+		}
+		if bad == "" {
+			for a := 0; a < 65536; a++ {
+				if run.Memory.Get(uint16(a)) != twin.Memory.Get(uint16(a)) {
+					bad = fmt.Sprintf("memory at %04X differs from repeated Step", a)
+					break
+				}
+			}
+		}
+		mu.Lock()
+		directCalls += int64(calls)
+		if swapAt != 0 {
+			directSwaps++
+		}
+		mu.Unlock()
+		if bad != "" {
+			sig := bad
+			if len(sig) > 40 {
+				sig = sig[:40]
+			}
+			kind := "DumbMemory"
+			if useMap {
+				kind = "MapMemory"
+			}
+			c.R.Violation(fmt.Sprintf("C08/direct-%s/%s", kind, sig), map[string]interface{}{
+				"what": bad, "config": di, "memory": kind, "IM": o.IM, "bank_switch_at_port_access": swapAt, "request_at_port_access": ioReqAt,
+				"code": HexBytes(p.Code), "run": DumpState(&run.States, run.HALT), "twin": DumpState(&twin.States, twin.HALT)})
+		}
+	})
+	runCalls += directCalls
+	c.R.Set("direct_memory_configurations", int64(ndirect))
+	c.R.Set("direct_memory_run_calls", directCalls)
+	c.R.Set("direct_memory_bank_switch_configs", directSwaps)
+
 	c.R.Set("evaluations", runCalls)
 	c.R.Set("configurations", evals)
 	c.R.Set("run_calls_compared", runCalls)
@@ -447,7 +628,7 @@ func runC08(c *Ctx) {
 	c.R.Set("breakpoint_classes", bpClassCount)
 	c.R.Set("twin_steps", totalSteps)
 	c.R.Set("exhaustive", false)
-	c.R.Set("rule", "generated terminating programs (as C07, plus programs laid around 0000 so that control flow wraps FFFF->0000 and programs whose final HALT sits exactly at FFFF) x breakpoint sets {nil, empty, start PC, HALT address, addresses inside multi-byte instructions, addresses taken from the PC trace, random, handler entry points} x {fresh, stale HALT=true} x memory/port callbacks raising NMI/INT at chosen access counts, installed identically on both twins (in 1/4 of them a request is raised by the very read that delivers the final HALT opcode); the breakpoint set is edited between Run calls (same size, other members); the twin decides 'this Step executed a HALT' from the opcode it fetched, not from the flag; Run is called repeatedly (continuing after every breakpoint stop, then once more on the halted CPU) and after every call compared with a twin CPU driven by Step under the property's stop rule: return value, full States incl. R, HALT, pending request, and the full ordered memory and port logs (so not one Step more or fewer); logical watchdog = twin's access count x2+64. Distinct = distinct configurations (program, breakpoint set); every configuration executes at least one Run call")
+	c.R.Set("rule", "generated terminating programs (as C07, plus programs laid around 0000 so that control flow wraps FFFF->0000 and programs whose final HALT sits exactly at FFFF) x breakpoint sets {nil, empty, start PC, HALT address, addresses inside multi-byte instructions, addresses taken from the PC trace, random, handler entry points} x {fresh, stale HALT=true} x memory/port callbacks raising NMI/INT at chosen access counts, installed identically on both twins (in 1/4 of them a request is raised by the very read that delivers the final HALT opcode); the breakpoint set is edited between Run calls (same size, other members); the twin decides 'this Step executed a HALT' from the opcode it fetched, not from the flag; Run is called repeatedly (continuing after every breakpoint stop, then once more on the halted CPU) and after every call compared with a twin CPU driven by Step under the property's stop rule: return value, full States incl. R, HALT, pending request, and the full ordered memory and port logs (so not one Step more or fewer); logical watchdog = twin's access count x2+64. A second phase repeats the Run-vs-Step comparison (states, port logs, final memory) on 64 KiB z80.DumbMemory / z80.MapMemory handed to the CPU directly, with requests pending from the start, raised by port callbacks and injected between calls, and with a port callback that bank-switches by assigning another memory to CPU.Memory. Distinct = distinct configurations (program, breakpoint set); every configuration executes at least one Run call")
 	c.R.Assume("programs derailed by the C07 known finding (mode-0 resume address) are compared only as far as both twins go; Run and Step derail identically")
 }
 
